@@ -293,10 +293,11 @@ def run_jobs(ctx, jobs, workers=None):
     return results
 
 
-def run_sessions(root, template, cachefile, start, end, placeholder):
+def run_sessions(root, template, cachefile, start, end, placeholder, init_cov=None, then_cov=None):
     r = core.run_py(HARNESS, ["session", root, template, cachefile or "-",
                               json.dumps(start) if start else "-", json.dumps(end) if end else "-",
-                              json.dumps(placeholder)], timeout=300)
+                              json.dumps(placeholder), json.dumps({"init_cov": init_cov, "then_cov": then_cov})],
+                    timeout=300)
     try:
         return json.loads(r.stdout.strip().splitlines()[-1])
     except Exception:
@@ -316,9 +317,25 @@ def eval_roundtrips(ctx, caches, name="rt"):
         if v is None:
             out.append(None)
         else:
-            _strings, (warned, shown) = v
-            out.append((bool(warned), canon_model(shown)))
+            strings, (warned, shown) = v
+            out.append((bool(warned), canon_model(shown),
+                        [["".join(map(chr, a)), "".join(map(chr, b))] for a, b in strings]))
     return out
+
+
+def note_format(ctx, predicted, doc_text):
+    """Statistic, not a verdict: are the time strings in the file the ones fmt_time of the model writes?
+    (The property fixes the round trip, not the spelling; a differing spelling is only noted.)"""
+    st = ctx.cov.setdefault("time_strings", {"documents_compared": 0, "spelled_as_model": 0})
+    try:
+        written = [e["times"] for e in json.loads(doc_text)]
+    except Exception:
+        return
+    st["documents_compared"] += 1
+    if predicted is not None and written == predicted[2]:
+        st["spelled_as_model"] += 1
+    elif len(ctx.notes) < 20:
+        ctx.notes.append(f"time strings in the saved document differ from the model's fmt_time: {str(written)[:120]}")
 
 
 def cache_hyp(entries):
@@ -345,7 +362,7 @@ def check_load_of(ctx, what, entries, predicted, load, case, nontrivial_key=None
     if predicted is None:
         ctx.fail("correspondence", "Coq evaluation of the model failed", case=case, signature="coq-eval")
         return False
-    warned, canon = predicted
+    warned, canon = predicted[0], predicted[1]
     hyp = cache_hyp(entries)
     if hyp and (warned or canon != canon_entries(entries)):
         ctx.fail("proof", "model round trip differs from the identity inside Coq (cannot happen while the theorems stand)",
@@ -419,6 +436,7 @@ def check_sweeps(ctx, jobs, results):
             ctx.notes.append(f"sweep {j['id']}: primitives {[e[0] for e in events][:3]}..{[e[0] for e in events][-3:]} "
                              "are not open/write*/close/rename; only the property itself is checked there")
         pred_new, pred_old = preds[2 * idx], preds[2 * idx + 1]
+        note_format(ctx, pred_new, r.get("new_doc") or "")
         has_old = j["old_entries"] is not None
         want_old = "old" if has_old else "missing"
         ok_all = True
@@ -502,7 +520,9 @@ def check_histories(ctx, jobs, results):
         evs = []
         for st, o in zip(j["steps"], r["steps"]):
             n = o["n_events"]
-            poisoned = any(e.get("poison") for e in st["entries"])
+            # an attribute json cannot serialise makes json.dump raise after the backup was opened: as far as the
+            # files go that is a save that died early (if the code under test did not raise, the save completed)
+            poisoned = any(e.get("poison") for e in st["entries"]) and o.get("raised")
             k = 1 if poisoned else (-1 if o["k"] is None else o["k"])
             evs.append(f"({zlit(max(n - 3, 0))}, {zlit(k)})")
         exprs.append(f"run_history_classes {coq_bool(j['init_entries'] is not None)} 7 {coq_list(evs)}")
@@ -724,7 +744,8 @@ def make_e2e(rng, k):
             files.append(f"s/2017{rng.randint(1, 12):02d}{rng.randint(1, 28):02d}_{rng.randint(0, 23):02d}{rng.randint(0, 59):02d}.nc")
         start, end = [2017, rng.randint(1, 6), 1], [2017, rng.randint(7, 12), 28]
     return {"kind": "e2e", "id": k, "style": kind, "template": template, "placeholder": placeholder,
-            "files": sorted(set(files)), "start": start, "end": end}
+            "files": sorted(set(files)), "start": start, "end": end,
+            "coverage": rng.choice(["1 hour", "90 minutes", "2 days"]) if kind == "start-only" else None}
 
 
 def run_e2e(case):
@@ -736,11 +757,19 @@ def run_e2e(case):
             p.touch()
         cf = str(Path(root) / "info_cache.json")
         args = (root, case["template"])
-        s0 = run_sessions(*args, None, case["start"], case["end"], case["placeholder"])
-        s1 = run_sessions(*args, cf, case["start"], case["end"], case["placeholder"])
+        q = (case["start"], case["end"], case["placeholder"])
+        cov = case.get("coverage")
+        s0 = run_sessions(*args, None, *q)
+        out = {}
+        if cov:
+            # the answers change with time_coverage: the cache must be reset when it is set, and a restart with the
+            # new setting must find what a cache-less fileset with that setting finds
+            out["s0c"] = run_sessions(*args, None, *q, init_cov=cov)
+        s1 = run_sessions(*args, cf, *q, then_cov=cov)
         saved = Path(cf).read_text() if Path(cf).exists() else None
-        s2 = run_sessions(*args, cf, case["start"], case["end"], case["placeholder"])
-        return {"s0": s0, "s1": s1, "s2": s2, "saved": saved and saved.replace(root, "<root>")[:600]}
+        s2 = run_sessions(*args, cf, *q, init_cov=cov)
+        out.update({"s0": s0, "s1": s1, "s2": s2, "saved": saved and saved.replace(root, "<root>")[:600]})
+        return out
     finally:
         shutil.rmtree(root, ignore_errors=True)
 
@@ -752,19 +781,24 @@ def check_e2e(ctx, cases):
     for c, r in zip(cases, results):
         ctx.cov["evaluations"] += 1
         case = {"kind": "e2e", "job": c}
-        errs = [r[s]["error"] for s in ("s0", "s1", "s2") if "error" in r[s]]
+        errs = [r[s]["error"] for s in ("s0", "s1", "s2", "s0c") if s in r and "error" in r[s]]
         if errs:
             ctx.fail("failing-input", f"a session with an info_cache file failed: {errs[0]}", case=case, impl=r,
                      signature="session-failed")
             continue
 
-        def found(s):
-            return sorted(json.dumps(x, sort_keys=True) for x in r[s]["found"])
+        def found(s, key="found"):
+            return sorted(json.dumps(x, sort_keys=True) for x in r[s][key])
 
         def cached(xs):
             return canon_observed({"cache": xs})
-        if not (found("s0") == found("s1") == found("s2")):
-            ctx.fail("failing-input", "find() answers differ between no cache, first run and run after restart",
+        if c.get("coverage"):
+            same = found("s0") == found("s1") and found("s0c") == found("s1", "found_after") == found("s2")
+        else:
+            same = found("s0") == found("s1") == found("s2")
+        if not same:
+            ctx.fail("failing-input", "find() answers differ between no cache, first run and run after restart"
+                     + (" (time_coverage set between two searches)" if c.get("coverage") else ""),
                      case=case, impl=r, signature="e2e-find-differs")
             continue
         if cached(r["s2"]["restored"]) != cached(r["s1"]["final"]) or r["s2"]["warned"]:
